@@ -137,7 +137,7 @@ class C11Part(M.MiscPart):
         quick = tier == "quick"
         n, p = {"bloom": (5, 0.5), "tdigest": (5, 0.45), "density": (4, 0.4)}[self.name]
         if not quick:
-            n, p = n * 8, 0.8
+            n, p = n * 5, 0.8
         hs = []
         while len(hs) < n:
             h = self.gen(rng, "quick", self._extra(rng, self.name, p))   # small parameters: the sweeps are exhaustive per image
